@@ -323,7 +323,10 @@ func checkHostOpen(c *Check) {
 		c.Fail("2/host-open", key+":walk", pos, "received descriptors are never wrapped into files")
 		return
 	}
-	c.Cond(lenIf != nil && lenIf.Block().Dominates(newFile.Block()) && leadsToReturn(lenIf.Block().Succs[0], 3), "2/host-open", key+":length-check", pos, "reply length is checked against the request before the walk", "the reply's length is not checked against the request before results are paired")
+	c.Cond(lenIf != nil && lenIf.Block().Dominates(newFile.Block()) && func() bool {
+		_, _, ne, ok := eqEdges(lenIf)
+		return ok && leadsToReturn(lenIf.Block().Succs[ne], 3)
+	}(), "2/host-open", key+":length-check", pos, "reply length is checked against the request before the walk", "the reply's length is not checked against the request before results are paired")
 	// file named after request i
 	nameArg := describe(newFile.Common().Args[1])
 	c.Cond(strings.HasPrefix(nameArg, req.Name()+"[") && strings.Contains(nameArg, "rangeindex") && strings.HasSuffix(nameArg, ".Path"), "2/host-open", key+":named-after-item", p.Pos(newFile.Pos()), "result i is named after request i", "the wrapped file is named "+nameArg)
@@ -476,8 +479,10 @@ func checkHostOpen(c *Check) {
 		for _, b := range sy.Blocks {
 			if iff := blockIf(b); iff != nil {
 				d := describe(iff.Cond)
-				if strings.Contains(d, "BatchErrors)") && strings.Contains(d, "builtin:len("+sy.Params[1].Name()+")") && leadsToReturn(b.Succs[0], 3) {
-					ok = true
+				if strings.Contains(d, "BatchErrors)") && strings.Contains(d, "builtin:len("+sy.Params[1].Name()+")") {
+					if _, _, ne, isEq := eqEdges(iff); isEq && leadsToReturn(b.Succs[ne], 3) {
+						ok = true
+					}
 				}
 			}
 		}
